@@ -163,6 +163,55 @@ def run(tier):
     v.obligation("correspondence: Lean driver reproduces every recorded call (trace validation)", not trace_bad,
                  "; ".join("%s :: %s" % (k.op[:200], k.trace_detail[:600]) for k in trace_bad[:3]))
     v.cov["traces_validated_against_impl"] = ntrace
+    # ---- the identity clause, literally: tables in which every rule keeps one cell per character (definitions, `=` rules,
+    # swap classes that map one element to one element, applied to runs in the correct / pass2 stage): both arrays are the
+    # identity and a cursor comes back where it was, at every position (seeded changes C07-G, C07-H: a multi-character
+    # rule or run gave all its cells the position of its first character)
+    from .. import gen_table as G
+    icases = []
+    for i in range(12 if tier == "quick" else 300):
+        letters = rng.sample("abcdefghijklmnopqrstuvwxyz", rng.randint(4, 8))
+        cells = rng.sample(range(1, 64), len(letters))
+        L = ["space \\s 0"] + ["lowercase %s %s" % (ch, G.dots_str(d)) for ch, d in zip(letters, cells)]
+        src = letters[:3]
+        kind = i % 4
+        if kind == 0:
+            L += ["swapcc swr %s %s" % ("".join(src), "".join(src[1:] + src[:1])), "noback correct [%%swr%s] %%swr" % rng.choice([".", "1-3", "2-5"])]
+        elif kind == 1:
+            cl = [G.dots_str(cells[letters.index(x)]) for x in src]
+            L += ["swapdd swr %s %s" % (",".join(cl), ",".join(cl[1:] + cl[:1])), "noback pass2 [%%swr%s] %%swr" % rng.choice([".", "1-3", "2-5"])]
+        elif kind == 2:
+            L += ["always %s =" % "".join(rng.sample(letters, 3)), "word %s =" % "".join(rng.sample(letters, 2))]
+        else:
+            L += ["swapcd swr %s %s" % ("".join(src), ",".join(G.dots_str(rng.randint(1, 63)) for _ in src)), "noback context [%%swr%s] %%swr" % rng.choice([".", "1-3"])]
+        tn = "c07id%d.ctb" % i
+        ops = []
+        for _ in range(6):
+            u = [ord(rng.choice(letters[:4] + [" "])) for _ in range(rng.randint(2, 10))]
+            if kind == 2:
+                u = [ord(x) for x in L[-2].split(" ")[1]] + [0x20] + u
+            for cur in sorted(set([0, len(u) - 1, rng.randint(0, len(u) - 1), rng.randint(0, len(u) - 1)])):
+                ops.append("FWD %s %d %d %d 28 %s - -" % (tn, rng.choice([0, 4]), 2 * len(u) + 4, cur, common.wide(u)))
+        icases.append(common.Case("c07-id%d" % i, ["TBL %s %s" % (tn, common.hexbytes("\n".join(L) + "\n"))], ops, {"text": "\n".join(L)}))
+    common.run_cases(exe, icases, batch=4)
+    nid = 0
+    for c in icases:
+        for op, o in zip(c.ops, c.out):
+            R = common.parse_R(o)
+            if R is None or not R["ret"]:
+                continue
+            n = len(common.unwide(op.split(" ")[6]))
+            if R["inlen"] != n or R["outlen"] != n:
+                continue            # (not one cell per character on this input after all)
+            nid += 1
+            v.cov["evaluations"] += 1
+            idm = ",".join(str(k) for k in range(n))
+            if R.get("ip") != idm or R.get("op") != idm or str(R.get("cur")) != op.split(" ")[4]:
+                v.violation("C07:identity:one-to-one", "every rule of the table keeps one cell per character, yet the arrays are not the identity "
+                            "or the cursor moved: inputPos=%s outputPos=%s cursor %s -> %s" % (R.get("ip"), R.get("op"), op.split(" ")[4], R.get("cur")),
+                            {"script": c.setup + [op], "result": o[:400], "table_text": c.meta["text"]})
+                break
+    dist["identity_calls"] = nid
     v.cov["distribution"] = dist
     v.cov["nonneg_contract_failures_on_real_traces"] = nn_fail
     v.cov["rule"] = ("FWD/BWD calls over %d shipped tables x generated inputs x modes x capacities x cursor positions; "
